@@ -146,7 +146,7 @@ def check(prop, tier, seed):
         bseed = seed * 100 + b
         binary, specdir, stats = prepare_batch(work if b == 0 else work, tools, bseed, n_designs, cfg["race"])
         all_stats.append(stats)
-        env_extra = {"VERIF_SPEC_DIR": specdir}
+        env_extra = {"VERIF_SPEC_DIR": specdir, "VERIF_GEN_DIR": work.path("gen")}
         outs = orch.run_workers(work, binary, prop, tier, bseed * 1000003, total // batches, budget / batches, cfg.get("args"), env_extra=env_extra)
         nn, nk, det = orch.triage(work, binary, prop, tier, outs, cfg.get("args"), env_extra=env_extra)
         # replay files of this engine need the design batch: store the specs they refer to
@@ -199,7 +199,7 @@ def replay(rf, path):
     work.prepare()
     tools = build_tools(work)
     binary, specdir, stats = prepare_batch(work, tools, rf["batch_seed"], rf["n_designs"], cfg["race"])
-    o = orch.run_tape(work, binary, prop, rf.get("tier", "quick"), {"seed": rf["seed"], "tape": rf["tape"]}, "replay", rf.get("args"), env_extra={"VERIF_SPEC_DIR": specdir})
+    o = orch.run_tape(work, binary, prop, rf.get("tier", "quick"), {"seed": rf["seed"], "tape": rf["tape"]}, "replay", rf.get("args"), env_extra={"VERIF_SPEC_DIR": specdir, "VERIF_GEN_DIR": work.path("gen")})
     if o is None:
         raise Trouble("replay run failed")
     print(json.dumps({k: o.get(k) for k in ("digest", "diverged", "violations")}, indent=1)[:6000])
